@@ -28,6 +28,7 @@ def run(ctx):
     ctx.rule("C10.cv", "wait: lock owns mtx; predicate-less wait sits in a loop re-checking counter_", floor=1)
     ws = ctx.step(check_waits, ctx, "C10.cv", CLS, "cv", "mtx", ["counter_"]) or []
     ctx.step(stable, ctx, ws)
+    ctx.step(initial, ctx)
     ctx.step(wake, ctx)
     ctx.step(nonblock, ctx)
     ctx.step(common.atomic_floors, ctx, "C10.orders", [CLS], floor=2, files=["Latch.hpp"])
@@ -43,6 +44,36 @@ def counter_mods(ctx):
             if atomic_field_of(f, op) == (CLS, "counter_") and op["op"] in ("store", "rmw", "cas"):
                 out.append((f, top, op))
     return out
+
+
+def initial(ctx):
+    """the latch opens after exactly the number of arrivals it was constructed with - also for 0 (an empty batch:
+    waiters never block): the constructor stores its argument unchanged"""
+    rid = "C10.initial"
+    ctx.rule(rid, "the constructor initialises counter_ with its argument itself", floor=1)
+    n = 0
+    for f in ctx.fb.functions(rec=CLS):
+        if f.kind != "ctor" or f.defaulted or not f.params:
+            continue
+        ini = [i for i in f.inits if i.get("field") == "counter_"]
+        asg = [st for st in f.stmts.values() if st["k"] in ("BinaryOperator", "CXXOperatorCallExpr", "CXXMemberCallExpr") and
+               ((st["k"] == "BinaryOperator" and st.get("op") == "=" and path(f, f.children(st)[0]) == "this.counter_") or
+                (st["k"] == "CXXOperatorCallExpr" and st.get("op") == "=" and path(f, f.s(st["args"][0])) == "this.counter_") or
+                (st["k"] == "CXXMemberCallExpr" and st["callee"]["name"] == "store" and path(f, f.s(st["obj"])) == "this.counter_"))]
+        src = None
+        if ini and not asg:
+            e = unwrap(f, f.s(ini[0]["init"]))
+            while e is not None and (e["k"] in ("CXXConstructExpr", "InitListExpr", "CXXTemporaryObjectExpr")):
+                ch = [f.s(a) for a in e.get("args", [])] if e["k"] != "InitListExpr" else f.children(e)
+                e = unwrap(f, ch[0]) if len(ch) == 1 else None
+            src = path(f, e) if e is not None else None
+        ok = src == "p:" + f.params[0]["name"]
+        n += 1
+        ctx.ob(rid, ok, f.where, "Latch(count) starts with counter_ == count", "" if ok else
+               "counter_ is initialised from %s: a latch built for another number of arrivals than asked for (an empty batch, "
+               "Latch(0), must never block its waiters)" % (src or "an expression other than the parameter"), fn=f.label, inst=f.qname)
+    if n == 0:
+        ctx.broken("Latch constructor not found (anchor vanished)")
 
 
 def stable(ctx, ws):
